@@ -6,9 +6,12 @@ package main
 
 import (
 	"bytes"
+	"encoding/xml"
 	"fmt"
 	"io"
 	"net/url"
+	"os"
+	"path/filepath"
 	"sort"
 	"strings"
 
@@ -32,6 +35,10 @@ type seen struct {
 	CT      string
 	Form    map[string][]string
 	Files   map[string]string
+}
+
+type fidXML struct {
+	K string `xml:"k"`
 }
 
 type fidRT struct{ last seen }
@@ -339,6 +346,87 @@ func runFidelity(r *core.Run) {
 		}, func(s seen) (string, bool) {
 			want, _ := jsonMarshal(map[string]string{"k": v})
 			return "JSON body differs from the marshalled value", s.Body == want && strings.HasPrefix(s.CT, "application/json")
+		})
+	}
+	// a URL that brings its own query string (and fragment): its parameters are part of what was configured and the
+	// client- and request-level ones are sent in addition
+	for _, v := range fidValues {
+		v := v
+		for _, frag := range []string{"", "#frag"} {
+			frag := frag
+			do(fidCase{"url-own-query", "both", v, frag}, func(cl *client.Client, rq *client.Request) string {
+				cl.SetParam("q", "c"+v)
+				rq.SetParam("q", "r"+v).SetParam("only", v)
+				return "http://srv.test/p?u=1&q=" + url.QueryEscape("u"+v) + frag
+			}, func(s seen) (string, bool) {
+				return "the URL's own query parameters and the configured ones do not all arrive", s.Path == "/p" && sameSet(s.Query["q"], []string{"u" + v, "c" + v, "r" + v}) && sameSet(s.Query["u"], []string{"1"}) && sameSet(s.Query["only"], []string{v}) && len(s.Query) == 3
+			})
+		}
+	}
+	// keys that need escaping (query parameters, form fields), at client and request level
+	for _, k := range []string{"a b", "k&x", "k=x", "ü", "%2F", "k;x", "k+x", ""} {
+		for _, v := range []string{"", "a b", "a&b=c"} {
+			k, v := k, v
+			if k == "" && v == "" {
+				continue
+			}
+			do(fidCase{"query-key", "both", k, v}, func(cl *client.Client, rq *client.Request) string {
+				cl.AddParam(k, v)
+				rq.AddParam(k, v+"2").AddParam("plain", "1")
+				return "http://srv.test/p"
+			}, func(s seen) (string, bool) {
+				return "a query parameter whose KEY needs escaping does not arrive under that key with its values", sameSet(s.Query[k], []string{v, v + "2"}) && sameSet(s.Query["plain"], []string{"1"}) && len(s.Query) == 2
+			})
+			do(fidCase{"form-key", "request", k, v}, func(_ *client.Client, rq *client.Request) string {
+				rq.AddFormData(k, v).AddFormData(k, v+"2").AddFormData("plain", "1")
+				return "http://srv.test/p"
+			}, func(s seen) (string, bool) {
+				return "a form field whose KEY needs escaping does not arrive under that key with its values", sameSet(s.Form[k], []string{v, v + "2"}) && sameSet(s.Form["plain"], []string{"1"}) && len(s.Form) == 2
+			})
+		}
+	}
+	// files given by path (the client opens them itself), as a path or as a File object with a field name; XML and
+	// CBOR bodies
+	if dir, err := os.MkdirTemp("", "c18-files-"); err == nil {
+		defer os.RemoveAll(dir)
+		for i, v := range fidValues {
+			v := v
+			path := filepath.Join(dir, fmt.Sprintf("up%d.txt", i))
+			if os.WriteFile(path, []byte(v), 0o600) != nil {
+				continue
+			}
+			name := filepath.Base(path)
+			do(fidCase{"file-by-path", "request", "", v}, func(_ *client.Client, rq *client.Request) string {
+				rq.AddFile(path).SetFormData("f", v)
+				return "http://srv.test/p"
+			}, func(s seen) (string, bool) {
+				c, ok := s.Files[name]
+				return "a file configured by its path does not arrive under its base name with the content of the file (or the form field sent with it is wrong)", ok && c == v && sameSet(s.Form["f"], []string{v}) && len(s.Files) == 1
+			})
+			do(fidCase{"file-object-by-path", "request", "", v}, func(_ *client.Client, rq *client.Request) string {
+				rq.AddFiles(client.AcquireFile(client.SetFilePath(path), client.SetFileName("renamed.txt"), client.SetFileFieldName("fld")),
+					client.AcquireFile(client.SetFileName("r.txt"), client.SetFileReader(io.NopCloser(bytes.NewReader([]byte("r"+v))))))
+				return "http://srv.test/p"
+			}, func(s seen) (string, bool) {
+				return "File objects (one by path with a name of its own, one with a reader) do not arrive with their names and contents", s.Files["renamed.txt"] == v && s.Files["r.txt"] == "r"+v && len(s.Files) == 2
+			})
+		}
+	}
+	for _, v := range fidValues {
+		v := v
+		do(fidCase{"xml-body", "request", "", v}, func(_ *client.Client, rq *client.Request) string {
+			rq.SetXML(fidXML{K: v})
+			return "http://srv.test/p"
+		}, func(s seen) (string, bool) {
+			want, _ := xml.Marshal(fidXML{K: v})
+			return "XML body differs from the marshalled value", s.Body == string(want) && strings.HasPrefix(s.CT, "application/xml")
+		})
+		do(fidCase{"cbor-body", "request", "", v}, func(cl *client.Client, rq *client.Request) string {
+			rq.SetCBOR(map[string]string{"k": v})
+			return "http://srv.test/p"
+		}, func(s seen) (string, bool) {
+			want, _ := client.New().CBORMarshal()(map[string]string{"k": v})
+			return "CBOR body differs from the marshalled value", s.Body == string(want) && strings.HasPrefix(s.CT, "application/cbor")
 		})
 	}
 	// base URL + relative URL
